@@ -148,6 +148,13 @@ static void instr_hook(int instruction) {
   S.vns_frac += S.instr_cost_ns;
   if (S.vns_frac >= 1000) { S.vus += S.vns_frac / 1000; S.vns_frac %= 1000; }
   if (S.instr_total > S.max_instr) { ev("HANG instructions"); ev_flush(); _exit(75); }
+  if (S.timer_countdown >= 0 && S.timer_countdown-- == 0) {
+    S.timer_countdown = -1;
+    S.vus += S.timer_dt;
+    ev("timer_mid_evaluation instr=%ld", S.instr_total);
+    S.stats["timer_mid_evaluation"]++;
+    sim_fire_timer();
+  }
   if (S.fault_countdown >= 0) {
     if (prog_exempt(current_prog)) return;
     if (master_exempt && current_object == master_ob) return;
